@@ -4,6 +4,7 @@ package c03
 import (
 	"encoding/binary"
 	"fmt"
+	"time"
 
 	"go.nanomsg.org/mangos/v3"
 	"go.nanomsg.org/mangos/v3/protocol/req"
@@ -15,15 +16,15 @@ import (
 
 func init() {
 	vexplore.Register("C03", func(tier string) []*vexplore.Scenario {
-		d := 4
-		b := 1
+		d := 5
+		b := 2
 		if tier == "thorough" {
-			d = 5
-			b = 2
+			d = 6
+			b = 3
 		}
 		return []*vexplore.Scenario{
 			{Name: fmt.Sprintf("req-hist-D%d", d), Mode: "hist", Bound: 0, Reset: kit.ResetGlobals,
-				Body: func() { hist(d) }, NeedCounters: []string{"stale-ignored", "reply-delivered", "canceled-by-send", "protostate", "dup-ignored", "foreign-ignored"}},
+				Body: func() { hist(d) }, NeedCounters: []string{"stale-ignored", "reply-delivered", "canceled-by-send", "protostate", "dup-ignored", "foreign-ignored", "recv-timed-out", "late-reply-after-timeout-ignored", "retry-disabled"}},
 			{Name: "req-sched-send-recv-reply", Mode: "sched", Bound: b, Reset: kit.ResetGlobals, Body: schedSendRecvReply},
 			{Name: "req-sched-two-ctx", Mode: "sched", Bound: b, Reset: kit.ResetGlobals, Body: schedTwoCtx},
 		}
@@ -48,6 +49,8 @@ type mctx struct {
 	hasPrev bool
 	answer string
 	recv   *kit.Call
+	recvAt time.Duration
+	timedOut bool // the current id belongs to a request whose Recv timed out
 	closed bool
 	nsent  int
 }
@@ -67,6 +70,7 @@ func (m *mctx) recvCall() ([]byte, error) {
 }
 
 type world struct {
+	deadline time.Duration
 	sock  mangos.Socket
 	ep    *vt.Endpoint
 	pipes []*vt.Pipe
@@ -76,11 +80,24 @@ type world struct {
 	nrep  int
 }
 
-func setup(nctx int) *world {
-	w := &world{}
+func setup(nctx int) *world { return setupCfg(nctx, -1, 0) }
+
+func setupCfg(nctx int, retry, deadline time.Duration) *world {
+	w := &world{deadline: deadline}
 	s, err := req.NewSocket()
 	if err != nil {
 		kit.Failf("setup", "NewSocket: %v", err)
+	}
+	if retry >= 0 {
+		if err := s.SetOption(mangos.OptionRetryTime, retry); err != nil {
+			kit.Failf("setup", "RetryTime: %s", kit.ErrName(err))
+		}
+		kit.Count("retry-disabled")
+	}
+	if deadline > 0 {
+		if err := s.SetOption(mangos.OptionRecvDeadline, deadline); err != nil {
+			kit.Failf("setup", "RecvDeadline: %s", kit.ErrName(err))
+		}
 	}
 	w.sock = s
 	w.ep = vt.Get("req")
@@ -124,7 +141,16 @@ type event struct {
 }
 
 func hist(depth int) {
-	w := setup(2)
+	cfg := kit.ChooseFree(4)
+	retry := time.Duration(-1)
+	if cfg&1 != 0 {
+		retry = 0
+	}
+	deadline := time.Duration(0)
+	if cfg&2 != 0 {
+		deadline = 50 * time.Millisecond
+	}
+	w := setupCfg(2, retry, deadline)
 	for d := 0; d < depth; d++ {
 		evs := w.events()
 		e := evs[kit.ChooseFree(len(evs))]
@@ -134,7 +160,16 @@ func hist(depth int) {
 		kit.Quiesce()
 		w.settle()
 	}
-	// final: closing the socket fails every pending Recv with ErrClosed
+	// final drain: every context receives once more, so that a reply that was wrongly kept for it
+	// (or wrongly withheld from it) shows even when the history itself ended before a Recv
+	for _, m := range w.ctxs {
+		if m.recv == nil && !m.closed {
+			w.doRecv(m)
+		}
+	}
+	kit.Quiesce()
+	w.settle()
+	// closing the socket fails every pending Recv with ErrClosed
 	kit.Must("Socket.Close", func() { _ = w.sock.Close() })
 	kit.Quiesce()
 	for _, m := range w.ctxs {
@@ -172,6 +207,9 @@ func (w *world) events() []event {
 		if m.hasPrev {
 			evs = append(evs, event{"reply-prev:" + m.name, func() { w.deliver(ci%2, m.prev, "prev:"+m.name) }})
 		}
+	}
+	if w.deadline > 0 {
+		evs = append(evs, event{"advance:deadline", func() { kit.Sleep(w.deadline) }})
 	}
 	m0 := w.ctxs[0]
 	if m0.cur != 0 {
@@ -239,10 +277,12 @@ func (w *world) doSend(m *mctx) {
 	}
 	m.cur = id
 	m.ph = outstanding
+	m.timedOut = false
 	m.answer = ""
 }
 
 func (w *world) doRecv(m *mctx) {
+	m.recvAt = kit.Now()
 	m.recv = kit.Start("Recv:"+m.name, func() (interface{}, error) {
 		b, err := m.recvCall()
 		return string(b), err
@@ -270,6 +310,9 @@ func (w *world) deliver(pi int, id uint32, tag string) {
 			matched = true
 		} else if m.cur == id && m.ph != outstanding {
 			kit.Count("dup-ignored")
+			if m.timedOut {
+				kit.Count("late-reply-after-timeout-ignored")
+			}
 		} else if m.hasPrev && m.prev == id {
 			kit.Count("stale-ignored")
 		}
@@ -323,6 +366,15 @@ func (w *world) settle() {
 			kit.Count("reply-delivered")
 			m.ph = idle
 			m.recv = nil
+		case m.ph == outstanding && w.deadline > 0 && kit.Now() >= m.recvAt+w.deadline:
+			if !c.Done() || c.Err != mangos.ErrRecvTimeout || c.T1 != m.recvAt+w.deadline {
+				kit.Failf("recv-deadline", "%s: Recv with deadline %v started at %v: done=%v %s at %v", m.name, w.deadline, m.recvAt, c.Done(), kit.ErrName(c.Err), c.T1)
+			}
+			// the request is abandoned; its reply, should it still come, must not be delivered
+			m.ph = idle
+			m.timedOut = true
+			m.recv = nil
+			kit.Count("recv-timed-out")
 		case m.ph == outstanding:
 			if c.Done() {
 				kit.Failf("recv-early", "%s: Recv returned %s / %q although no reply to the current request %08x has arrived", m.name, kit.ErrName(c.Err), c.Val, m.cur)
